@@ -8,8 +8,6 @@ ext, cyc, hasRall/rall, hasMall/mall); paths are tuples of names where the defin
 """
 from __future__ import annotations
 
-import ast
-import inspect
 import json
 import os
 import re
@@ -26,33 +24,33 @@ def modname(mpriv: bool) -> str:
     return "_mod" if mpriv else "mod"
 
 
-# ---- extraction: does _alias_incompatibilities catch CyclicAliasError? ------------------------------------
+# ---- probe: does the finder skip cyclic re-exports? (public behaviour only, no private name is read) ----------
+CATCH_NOTES: list = []
+
+
 def catches_cyclic() -> bool:
-    from _griffe import diff as D  # noqa: PLC0415
-    from _griffe import exceptions as E  # noqa: PLC0415
+    """Diff a tiny package holding a public cyclic re-export with itself: TRUE when find_breaking_changes
+    returns, FALSE when the cycle escapes as an exception (value of the model constant CatchCyclic)."""
+    import griffe  # noqa: PLC0415
 
-    try:
-        tree = ast.parse(inspect.getsource(D._alias_incompatibilities))
-    except Exception as exc:  # noqa: BLE001
-        die(f"C11: cannot read the source of _griffe.diff._alias_incompatibilities ({exc!r})")
-    import builtins  # noqa: PLC0415
+    from gverif.common import scratch  # noqa: PLC0415
 
-    def resolve(node):
-        if isinstance(node, ast.Tuple):
-            return [c for e in node.elts for c in resolve(e)]
-        name = node.id if isinstance(node, ast.Name) else node.attr if isinstance(node, ast.Attribute) else None
-        for ns in (D, E, builtins):
-            if name and hasattr(ns, name):
-                return [getattr(ns, name)]
-        return []
-
-    for node in ast.walk(tree):
-        if isinstance(node, ast.ExceptHandler):
-            if node.type is None:
-                return True
-            if any(isinstance(c, type) and issubclass(E.CyclicAliasError, c) for c in resolve(node.type)):
-                return True
-    return False
+    files = {"pkg/__init__.py": 'from pkg.mod import cyc\n__all__ = ["cyc"]\n', "pkg/mod.py": "from pkg import cyc\n"}
+    with scratch("c11-probe-") as d:
+        try:
+            pkgs = []
+            for sub in ("o", "n"):
+                write_files(os.path.join(d, sub), files)
+                pkgs.append(griffe.load("pkg", search_paths=[os.path.join(d, sub)], resolve_aliases=True))
+        except Exception as exc:  # noqa: BLE001
+            die(f"C11: cannot load the probe package with a cyclic re-export ({exc!r})")
+        try:
+            list(griffe.find_breaking_changes(*pkgs))
+        except Exception as exc:  # noqa: BLE001
+            if type(exc).__name__ != "CyclicAliasError":
+                CATCH_NOTES.append(f"probe of a cyclic re-export raised {type(exc).__name__} (not CyclicAliasError); the model assumes the cycle escapes")
+            return False
+    return True
 
 
 # ---- concretisation -----------------------------------------------------------------------------------------
